@@ -19,7 +19,10 @@ package c18
 // and observes what the task receives with a transparent |log() sink directly under every
 // query node (under |from() for a stream task).
 //
-// Generator: 1-4 query nodes, 0-3 queries each, 0-3 series per response, a few explicit rows
+// Generator: 1-4 query nodes (one task in ten of kind "task": 5-24 query nodes, mostly small
+// sources - the archive names its entries by the decimal index of the node, so beyond ten nodes
+// the entry names have different lengths and their order as strings differs from the order of
+// the nodes), 0-3 queries each, 0-3 series per response, a few explicit rows
 // plus (size class of the source) 0 / tens / hundreds / thousands of rows of high-entropy
 // values, so that entries range from empty to many read buffers of compressed data and the
 // sources of one archive finish at very different moments.
@@ -92,7 +95,7 @@ type FileCase struct {
 	Sources []FSource `json:"sources"`
 }
 
-const fileRule = "rapid: recording made by services/replay through its file data source (record batch of a task with 1-4 query nodes x 0-3 queries x 0-3 series; record query -type batch; record query -type stream) " +
+const fileRule = "rapid: recording made by services/replay through its file data source (record batch of a task with 1-4, one in ten 5-24, query nodes x 0-3 queries x 0-3 series; record query -type batch; record query -type stream) " +
 	"and replayed from the recording file by POST /replays x recTime; sources from empty to thousands of incompressible rows; " +
 	"non-trivial = the archive holds at least two entries with data, or the recording file is larger than 8 KiB; distinct by case hash"
 
@@ -106,6 +109,7 @@ const (
 	fileDB        = "db"
 	fileRP        = "rp"
 	srcPrefix     = "src"
+	maxSources    = 24 // query nodes of a "many sources" task: archive entries "0".."23"
 	sinkPrefix    = "S"
 )
 
@@ -128,8 +132,20 @@ func genFile(r *kit.Rec) func(t *rapid.T) FileCase {
 		c.RecTime = rapid.Bool().Draw(t, "rectime")
 		c.Start = rapid.SampledFrom([]int64{1_456_833_600, 1_500_000_000, 1_500_000_123, 946_684_800, 86400, 1_600_000_000}).Draw(t, "start")
 		nsrc := 1
+		many := false
 		if c.Kind == "task" {
-			nsrc = rapid.SampledFrom([]int{1, 1, 2, 2, 2, 2, 3, 3, 4}).Draw(t, "nsources")
+			nsrc = rapid.SampledFrom([]int{1, 1, 2, 2, 2, 2, 3, 3, 4, 0}).Draw(t, "nsources")
+			if nsrc == 0 {
+				// a task with many query nodes: the archive holds one entry per node, named by the node's
+				// decimal index (batchArchive.Archive), so that beyond ten nodes the names have different
+				// lengths and the order of the names as strings is no longer the order of the nodes
+				many = true
+				lo := 5
+				if rapid.IntRange(0, 2).Draw(t, "two-digit-entries") != 0 {
+					lo = 11
+				}
+				nsrc = rapid.IntRange(lo, maxSources).Draw(t, "nsources-many")
+			}
 		}
 		stream := c.Kind == "squery"
 		for i := 0; i < nsrc; i++ {
@@ -158,7 +174,12 @@ func genFile(r *kit.Rec) func(t *rapid.T) FileCase {
 			}
 			// size class of the source: how many incompressible rows one of its series gets
 			bulk := 0
-			switch rapid.SampledFrom([]int{0, 0, 0, 0, 0, 0, 0, 0, 0, 0, 1, 1, 1, 1, 1, 2, 2, 2, 2, 3}).Draw(t, "sizeclass") {
+			sizes := []int{0, 0, 0, 0, 0, 0, 0, 0, 0, 0, 1, 1, 1, 1, 1, 2, 2, 2, 2, 3}
+			if many {
+				// many sources: mostly small ones (the cost of a case is the sum over its sources)
+				sizes = []int{0, 0, 0, 0, 0, 0, 0, 0, 0, 0, 0, 0, 0, 0, 0, 0, 1, 1, 1, 2}
+			}
+			switch rapid.SampledFrom(sizes).Draw(t, "sizeclass") {
 			case 1:
 				bulk = rapid.IntRange(10, 80).Draw(t, "bulk")
 			case 2:
@@ -648,7 +669,14 @@ func fileCore(c FileCase, cc *kit.Case) (string, string) {
 		}
 	}
 	label("kind=" + c.Kind)
-	label(fmt.Sprintf("sources=%d", nsrc))
+	switch {
+	case nsrc <= 4:
+		label(fmt.Sprintf("sources=%d", nsrc))
+	case nsrc <= 10:
+		label("sources=5..10")
+	default:
+		label("sources>=11(entry names of different lengths)")
+	}
 	if c.RecTime {
 		label("recTime")
 	} else {
@@ -857,6 +885,7 @@ var fileAssumptions = []string{
 	"InfluxDB is a fake that answers the k-th query naming measurement src<i> with the generated response of query node i (series named like the measurement, tags = the node's GROUP BY tags, distinct tag sets within one response, at most one series without GROUP BY tags; values json.Number|string|bool|null, RFC3339Nano times inside the query's window [start+k*1h, start+(k+1)*1h), rows ascending; for a node with GROUP BY time(1s) - SELECT first(*) - columns first_<field> and one row per whole second) and every other query with an empty response; large sources get their rows from a splitmix64 sequence of the case's seed (numbers and 16-digit hex strings that do not compress)",
 	"what is recorded is modelled as in unit Batch: every series of a response becomes a batch through edge.ResultToBufferedBatches (the harness calls that function itself), tmax = stop time of the query unless the query has GROUP BY time() (startRecordBatch: 'Set stop time based off query bounds'), left as built for record query; a response without series records nothing; record query -type stream writes the rows of its single series as points of the query's db and rp in response order (runQueryStream)",
 	"the task's query nodes use .period(1h).every(1h) without alignment and the recorded range is [start, start + n*1h], so that every node runs exactly n queries (checked: a different number of queries is a harness error, not a violation)",
+	"a batch task may declare any number of query nodes (TICKscript sets no limit; generated: 1-4, one task in ten 5-24); what was recorded from the responses to the queries of node i (measurement src<i>) must be delivered to node i and to no other node - the archive's entry per node (batchArchive.Archive names it by the node's decimal index) is an implementation detail the check does not look at",
 	"'delivered to the task' is observed by a |log() node directly under every query node (under |from() for the stream task): query and from nodes pass the replayed data on unchanged",
 	"the replay uses the fast clock of the API ('clock': 'fast'), whose zero time is the wall time of the replay: for recTime=false only the equality of all shifts is checked, never their value",
 	"stream recording files: measurement, tag and field names are plain and strings hold no line terminators (the stream format's known findings are the business of unit Stream); a tag with an empty value and an absent tag are the same tag set (as in unit Stream)",
